@@ -237,6 +237,12 @@ def spowmod(a, e, m):
     p = cur()
     if isinstance(a, int) and isinstance(e, int) and isinstance(m, int):
         return pow(a, e, m)
+    if isinstance(e, int) and 0 <= e <= 3 and not isinstance(e, bool):
+        # small constant exponent: pow(a, e, m) = (a * ... * a) % m exactly
+        acc = 1
+        for _ in range(e):
+            acc = acc * a if not isinstance(acc, int) or acc != 1 else a
+        return sdivmod(acc, m)[1]
     t = _powmod(zt(a), zt(e), zt(m))
     mt = zt(m)
     if not (isinstance(m, int) and m > 0) and not implied(p, mt > 0):
